@@ -39,7 +39,16 @@ def _run_chunk(harness, header, execs, wd, tag, timeout, env, extra_args):
             for ex in todo:
                 f.write("\n".join(ex) + "\n")
         rc, out, to = vlib.run([harness] + list(extra_args) + [sp, tp], timeout=timeout, env=env)
-        evs = [ln for ln in open(tp).read().splitlines() if ln.strip()] if os.path.exists(tp) else []
+        evs = [ln for ln in open(tp, errors="replace").read().splitlines() if ln.strip()] if os.path.exists(tp) else []
+        if rc != 0 or to:
+            good = []
+            for ln in evs:                 # a crash can cut an event short: keep well-formed lines only
+                try:
+                    json.loads(ln)
+                    good.append(ln)
+                except ValueError:
+                    pass
+            evs = good
         # split events by reset
         groups, cur = [], None
         for ln in evs:
